@@ -303,4 +303,312 @@ theorem assemble_ne_panic (cc : CharClass) (s : List Char) : assemble cc s ≠ .
   | err => simp
   | panic => exact absurd hps hp.1
 
+/-! ## C15: one iteration of the disassembler -/
+
+open Disasm RtSpec in
+/-- the per-instruction condition of `RtSpec.disasmOkFrom` -/
+def slotOk (p : Bytes) (pc : Nat) : Bool :=
+  match getInsn? p pc with
+  | none => false
+  | some i =>
+    if i.opc = 0x18 then (getInsn? p (pc + 1)).isSome
+    else if i.opc = 0x85 then (i.src = 0 || i.src = 1)
+    else (WF.supported i.opc || i.opc == 0x8d)
+
+/-- the `_ => panic!` arm is reached exactly outside the C06 opcode set plus tail call -/
+theorem arm_isSome (o : BitVec 8) :
+    (Disasm.arm o.toNat).isSome = ((WF.supported o || o == 0x8d) && o != 0x18 && o != 0x85) := by
+  revert o; apply forall_bv8; decide +kernel
+
+theorem entryAt_isSome (p : Bytes) (pc : Nat) : (Disasm.entryAt p pc).isSome = slotOk p pc := by
+  unfold Disasm.entryAt slotOk
+  cases hx : getInsn? p pc with
+  | none => rfl
+  | some x =>
+    dsimp only
+    by_cases h18 : x.opc = 0x18
+    · rw [if_pos h18, if_pos h18]
+      cases getInsn? p (pc + 1) <;> rfl
+    · rw [if_neg h18, if_neg h18]
+      by_cases h85 : x.opc = 0x85
+      · rw [if_pos h85, if_pos h85]
+        by_cases h0 : x.src = 0
+        · rw [if_pos h0, decide_eq_true h0]; rfl
+        · rw [if_neg h0]
+          by_cases h1 : x.src = 1
+          · rw [if_pos h1, decide_eq_true h1, Bool.or_true]; rfl
+          · rw [if_neg h1, decide_eq_false h0, decide_eq_false h1]; rfl
+      · rw [if_neg h85, if_neg h85]
+        have ha := arm_isSome x.opc
+        have e1 : (x.opc != 0x18) = true := by simpa using h18
+        have e2 : (x.opc != 0x85) = true := by simpa using h85
+        rw [e1, e2, Bool.and_true, Bool.and_true] at ha
+        rw [← ha]
+        cases Disasm.arm x.opc.toNat with
+        | none => rfl
+        | some a => rfl
+
+/-- the wide-load merge of the model is the concatenation of the two immediates -/
+theorem wide_imm_eq (x y : BitVec 32) :
+    x.setWidth 64 + (y.signExtend 64 <<< (32 : Nat)) = (y ++ x : BitVec 64) := by
+  apply BitVec.eq_of_toNat_eq
+  rw [BitVec.toNat_append, BitVec.toNat_add, BitVec.toNat_shiftLeft, BitVec.toNat_signExtend,
+    BitVec.toNat_setWidth, BitVec.toNat_setWidth]
+  rw [← Nat.shiftLeft_add_eq_or_of_lt x.isLt]
+  have hx := x.isLt
+  have hy := y.isLt
+  simp only [Nat.shiftLeft_eq]
+  cases y.msb <;> simp <;> omega
+
+/-- an entry's name is the documented mnemonic of its opcode -/
+def NameOk (name : String) (o : Nat) : Prop :=
+  (name = "stxxaddw" ∧ o = 0xc3) ∨ (name = "stxxadddw" ∧ o = 0xdb) ∨ (name = "tail_call" ∧ o = 0x8d) ∨
+  (name = "le" ∧ o = 0xd4) ∨ (name = "be" ∧ o = 0xdc) ∨
+  ∃ sh opc, (name, sh, opc) ∈ AsmSpec.table ∧ (o = opc ∨ (o = opc + 8 ∧ (sh = .aluBin ∨ sh = .jcc)))
+
+def nameCheck (name : String) (o : Nat) : Bool :=
+  (name == "stxxaddw" && o == 0xc3) || (name == "stxxadddw" && o == 0xdb) || (name == "tail_call" && o == 0x8d) ||
+  (name == "le" && o == 0xd4) || (name == "be" && o == 0xdc) ||
+  AsmSpec.table.any (fun r => r.1 == name && (o == r.2.2 || (o == r.2.2 + 8 && (r.2.1 == .aluBin || r.2.1 == .jcc))))
+
+theorem nameCheck_sound {name : String} {o : Nat} (h : nameCheck name o = true) : NameOk name o := by
+  unfold nameCheck at h
+  unfold NameOk
+  simp only [Bool.or_eq_true, Bool.and_eq_true, beq_iff_eq, List.any_eq_true] at h
+  rcases h with ((((h | h) | h) | h) | h) | ⟨⟨n, sh, opc⟩, hm, hn, ho⟩
+  · exact .inl h
+  · exact .inr (.inl h)
+  · exact .inr (.inr (.inl h))
+  · exact .inr (.inr (.inr (.inl h)))
+  · exact .inr (.inr (.inr (.inr (.inl h))))
+  · simp only at hn ho
+    subst hn
+    exact .inr (.inr (.inr (.inr (.inr ⟨sh, opc, hm, ho⟩))))
+
+theorem arm_names_table :
+    ∀ n : Fin 256, ((Disasm.arm n.val).map (·.1)).all (fun name => nameCheck name n.val) = true := by
+  decide +kernel
+
+theorem arm_lt {o : Nat} {a} (h : Disasm.arm o = some a) : o < 256 := by
+  unfold Disasm.arm at h
+  split at h
+  all_goals first | omega | cases h
+
+theorem arm_nameOk {o : Nat} {name : String} {r} (h : Disasm.arm o = some (name, r)) : NameOk name o := by
+  have hlt := arm_lt h
+  have := arm_names_table ⟨o, hlt⟩
+  simp only [h, Option.map_some, Option.all_some] at this
+  exact nameCheck_sound this
+
+/-- what one iteration reports -/
+theorem entryAt_spec {p : Bytes} {pc : Nat} {e : Disasm.HLInsn} {n : Nat} (h : Disasm.entryAt p pc = some (e, n)) :
+    ∃ x, getInsn? p pc = some x ∧ n = (if x.opc = 0x18 then 2 else 1) ∧
+      e.opc = x.opc ∧ e.dst = x.dst ∧ e.src = x.src ∧ e.off = x.off ∧
+      (x.opc ≠ 0x18 → e.imm = x.imm.signExtend 64) ∧
+      (x.opc = 0x18 → ∃ y, getInsn? p (pc + 1) = some y ∧ e.imm = (y.imm ++ x.imm : BitVec 64)) ∧
+      NameOk e.name x.opc.toNat := by
+  unfold Disasm.entryAt at h
+  cases hx : getInsn? p pc with
+  | none => simp [hx] at h
+  | some x =>
+    rw [hx] at h
+    dsimp only at h
+    refine ⟨x, rfl, ?_⟩
+    by_cases h18 : x.opc = 0x18
+    · rw [if_pos h18] at h
+      rw [if_pos h18]
+      cases hy : getInsn? p (pc + 1) with
+      | none => simp [hy] at h
+      | some y =>
+        rw [hy] at h
+        dsimp only at h
+        cases h
+        refine ⟨rfl, rfl, rfl, rfl, rfl, fun h => absurd h18 h, fun _ => ⟨y, rfl, wide_imm_eq _ _⟩, ?_⟩
+        rw [h18]
+        exact (nameCheck_sound (by decide +kernel) : NameOk "lddw" (0x18 : BitVec 8).toNat)
+    · rw [if_neg h18] at h
+      rw [if_neg h18]
+      by_cases h85 : x.opc = 0x85
+      · rw [if_pos h85] at h
+        have hname : ∀ nm : String, nm = "call" ∨ nm = "callx" → NameOk nm x.opc.toNat := by
+          intro nm hnm
+          rw [h85]
+          rcases hnm with rfl | rfl <;> exact nameCheck_sound (by decide +kernel)
+        by_cases h0 : x.src = 0
+        · rw [if_pos h0] at h
+          cases h
+          exact ⟨rfl, rfl, rfl, rfl, rfl, fun _ => rfl, fun h => absurd h h18, hname _ (.inl rfl)⟩
+        · rw [if_neg h0] at h
+          by_cases h1 : x.src = 1
+          · rw [if_pos h1] at h
+            cases h
+            exact ⟨rfl, rfl, rfl, rfl, rfl, fun _ => rfl, fun h => absurd h h18, hname _ (.inr rfl)⟩
+          · rw [if_neg h1] at h; cases h
+      · rw [if_neg h85] at h
+        cases ha : Disasm.arm x.opc.toNat with
+        | none => rw [ha] at h; cases h
+        | some a =>
+          obtain ⟨name, render⟩ := a
+          rw [ha] at h
+          dsimp only at h
+          cases h
+          exact ⟨rfl, rfl, rfl, rfl, rfl, fun _ => rfl, fun h => absurd h h18, arm_nameOk ha⟩
+
+/-! ## C15: the loop against the sweep -/
+
+/-- the entries of a list of instruction starts; `none` when some iteration panics -/
+def entriesOf (p : Bytes) : List Nat → Option (List Disasm.HLInsn)
+  | [] => some []
+  | pc :: r =>
+    match Disasm.entryAt p pc, entriesOf p r with
+    | some (e, _), some es => some (e :: es)
+    | _, _ => none
+
+theorem entriesOf_isSome (p : Bytes) (l : List Nat) : (entriesOf p l).isSome = l.all (slotOk p) := by
+  induction l with
+  | nil => rfl
+  | cons pc r ih =>
+    rw [entriesOf, List.all_cons, ← ih, ← entryAt_isSome]
+    cases Disasm.entryAt p pc with
+    | none => rfl
+    | some a => cases entriesOf p r <;> rfl
+
+theorem entriesOf_spec {p : Bytes} {l : List Nat} {es : List Disasm.HLInsn} (h : entriesOf p l = some es) :
+    es.length = l.length ∧
+      ∀ k (hk : k < es.length) (hk' : k < l.length), ∃ n, Disasm.entryAt p l[k] = some (es[k], n) := by
+  induction l generalizing es with
+  | nil => simp only [entriesOf, Option.some.injEq] at h; subst h; simp
+  | cons pc r ih =>
+    rw [entriesOf] at h
+    cases he : Disasm.entryAt p pc with
+    | none => simp [he] at h
+    | some a =>
+      obtain ⟨e, n⟩ := a
+      cases hr : entriesOf p r with
+      | none => simp [he, hr] at h
+      | some es' =>
+        simp only [he, hr, Option.some.injEq] at h
+        subst h
+        obtain ⟨hl, hk⟩ := ih hr
+        refine ⟨by simp [hl], ?_⟩
+        intro k hk1 hk2
+        cases k with
+        | zero => exact ⟨n, he⟩
+        | succ k => simpa using hk k (by simpa using hk1) (by simpa using hk2)
+
+theorem loop_eq_entriesOf {p : Bytes} (h8 : p.size % 8 = 0) (fuel pc : Nat) (acc : List Disasm.HLInsn)
+    (hpc : pc * 8 ≤ p.size) (hf : p.size + 8 ≤ (pc + fuel) * 8) :
+    Disasm.loop p fuel pc acc = (entriesOf p (sweepFrom p pc)).map (acc.reverse ++ ·) := by
+  induction fuel generalizing pc acc with
+  | zero => omega
+  | succ fuel ih =>
+    rw [Disasm.loop, sweepFrom]
+    by_cases hlt : pc * 8 < p.size
+    · simp only [hlt, if_true]
+      obtain ⟨x, hx⟩ := getInsn?_isSome_iff.2 (show (pc + 1) * 8 ≤ p.size by omega)
+      simp only [hx]
+      rw [entriesOf]
+      cases he : Disasm.entryAt p pc with
+      | none => simp
+      | some a =>
+        obtain ⟨e, n⟩ := a
+        obtain ⟨x', hx', hn, -⟩ := entryAt_spec he
+        rw [hx] at hx'; cases hx'
+        have hsz : (pc + n) * 8 ≤ p.size := by
+          by_cases h18 : x.opc = 0x18
+          · have hs : slotOk p pc = true := by rw [← entryAt_isSome, he]; rfl
+            unfold slotOk at hs
+            simp only [hx, h18, if_true] at hs
+            cases hy : getInsn? p (pc + 1) with
+            | none => simp [hy] at hs
+            | some y =>
+              have := getInsn?_some_le hy
+              simp only [h18, if_true] at hn
+              omega
+          · simp only [h18, if_false] at hn
+            omega
+        have hn1 : 1 ≤ n := by rw [hn]; split <;> omega
+        simp only
+        rw [ih (pc + n) (e :: acc) hsz (by omega), ← hn]
+        cases entriesOf p (sweepFrom p (pc + n)) with
+        | none => rfl
+        | some es => simp
+    · simp [hlt, entriesOf]
+
+theorem disasmOkFrom_eq_all {p : Bytes} (h8 : p.size % 8 = 0) (fuel pc : Nat)
+    (hpc : pc * 8 ≤ p.size) (hf : p.size + 8 ≤ (pc + fuel) * 8) :
+    RtSpec.disasmOkFrom p fuel pc = (sweepFrom p pc).all (slotOk p) := by
+  induction fuel generalizing pc with
+  | zero => omega
+  | succ fuel ih =>
+    rw [RtSpec.disasmOkFrom, sweepFrom]
+    by_cases hlt : pc * 8 < p.size
+    · simp only [hlt, if_true]
+      obtain ⟨x, hx⟩ := getInsn?_isSome_iff.2 (show (pc + 1) * 8 ≤ p.size by omega)
+      simp only [hx, List.all_cons]
+      have hs : slotOk p pc = (if x.opc = 0x18 then (getInsn? p (pc + 1)).isSome
+          else if x.opc = 0x85 then (x.src = 0 || x.src = 1) else (WF.supported x.opc || x.opc == 0x8d)) := by
+        unfold slotOk; simp only [hx]
+      rw [hs]
+      by_cases h18 : x.opc = 0x18
+      · simp only [h18, if_true]
+        cases hy : getInsn? p (pc + 1) with
+        | none => simp
+        | some y =>
+          have := getInsn?_some_le hy
+          rw [ih (pc + 2) (by omega) (by omega)]
+      · simp only [h18, if_false]
+        rw [ih (pc + 1) (by omega) (by omega)]
+        by_cases h85 : x.opc = 0x85 <;> simp only [h85, if_true, if_false]
+    · simp [hlt]
+
+theorem toInsnVec_eq {p : Bytes} (h8 : p.size % 8 = 0) : Disasm.toInsnVec p = entriesOf p (starts p) := by
+  unfold Disasm.toInsnVec starts
+  simp only [h8, ne_eq, not_true_eq_false, if_false]
+  by_cases h0 : p.size = 0
+  · rw [sweepFrom]; simp [h0, entriesOf]
+  · simp only [h0, if_false]
+    rw [loop_eq_entriesOf h8 _ 0 [] (by omega) (by omega)]
+    cases entriesOf p (sweepFrom p 0) <;> simp
+
+theorem disasmOk_iff {p : Bytes} : RtSpec.DisasmOk p ↔ p.size % 8 = 0 ∧ (starts p).all (slotOk p) = true := by
+  unfold RtSpec.DisasmOk
+  constructor
+  · rintro ⟨h8, h⟩
+    rw [disasmOkFrom_eq_all h8 _ 0 (by omega) (by omega)] at h
+    exact ⟨h8, h⟩
+  · rintro ⟨h8, h⟩
+    rw [disasmOkFrom_eq_all h8 _ 0 (by omega) (by omega)]
+    exact ⟨h8, h⟩
+
+theorem toInsnVec_isSome_iff (p : Bytes) : (∃ es, Disasm.toInsnVec p = some es) ↔ RtSpec.DisasmOk p := by
+  rw [disasmOk_iff]
+  by_cases h8 : p.size % 8 = 0
+  · rw [toInsnVec_eq h8, ← entriesOf_isSome, Option.isSome_iff_exists]
+    simp [h8]
+  · simp [Disasm.toInsnVec, h8]
+
+theorem toInsnVec_size {p : Bytes} {es : List Disasm.HLInsn} (h : Disasm.toInsnVec p = some es) :
+    p.size % 8 = 0 := by
+  by_cases h8 : p.size % 8 = 0
+  · exact h8
+  · simp [Disasm.toInsnVec, h8] at h
+
+/-- every entry of a successful disassembly, against the instruction at the corresponding start -/
+theorem toInsnVec_entries {p : Bytes} {es : List Disasm.HLInsn} (h : Disasm.toInsnVec p = some es) :
+    es.length = (starts p).length ∧
+    ∀ k (hk : k < es.length) (hk' : k < (starts p).length),
+      ∃ x, getInsn? p ((starts p)[k]) = some x ∧
+        es[k].opc = x.opc ∧ es[k].dst = x.dst ∧ es[k].src = x.src ∧ es[k].off = x.off ∧
+        (x.opc ≠ 0x18 → es[k].imm = x.imm.signExtend 64) ∧
+        (x.opc = 0x18 → ∃ y, getInsn? p ((starts p)[k] + 1) = some y ∧ es[k].imm = (y.imm ++ x.imm : BitVec 64)) ∧
+        NameOk es[k].name x.opc.toNat := by
+  rw [toInsnVec_eq (toInsnVec_size h)] at h
+  obtain ⟨hl, hk⟩ := entriesOf_spec h
+  refine ⟨hl, ?_⟩
+  intro k hk1 hk2
+  obtain ⟨n, hn⟩ := hk k hk1 hk2
+  obtain ⟨x, hx, -, h1, h2, h3, h4, h5, h6, h7⟩ := entryAt_spec hn
+  exact ⟨x, hx, h1, h2, h3, h4, h5, h6, h7⟩
+
 end Rbpf
